@@ -90,6 +90,13 @@ def fresh_bool(label: str = "b") -> bool:
     return choose(2, label) == 1
 
 
+def native(thunk: Callable[[], Any]) -> Any:
+    """Run a block without CrossHair's tracing (native speed).  Only for blocks whose inputs are already concrete on
+    this path (e.g. values derived from choose()); symbolic values must not be touched inside."""
+    with NoTracing():
+        return thunk()
+
+
 def note(x: Any) -> None:
     _NOTES.append(x)
 
